@@ -25,6 +25,8 @@ LEVELS = {
 }
 LEVELS["C20"] = dict(text="Proof, unbounded: the real text of TwoValuedInterpretationsIterator::{new,next} and ThreeValuedInterpretationsIterator::{new,next,decrement,decrement_vec} (iterator chains lowered mechanically to index loops) is verified against successor/predecessor specifications of a binary / ternary odometer over the undecided positions, with injectivity, range and surjectivity lemmas giving: every completion/refinement exactly once, the interpretation itself first (three-valued), decided positions never altered. All vector lengths, all contents.",
                      note=TB + "Outlined std expressions: bool::then_some, slice->Vec into(). The final 'each value visited once by unit steps' composition is arithmetic over the contracts.", design_ref="DESIGN.md section 5 C20")
+LEVELS["C18"] = dict(text="Proof, unbounded, relative to an assumed bitmap algebra: the real text of every NoGood method (verbatim) and of NoGoodStore::{new, try_new, set_dup_elem, add_ng, conclusions, conclusion_closure} (iterator chains lowered mechanically) is verified against a semantics of nogoods as partial assignments: conclusions are forced, a reported conflict means no total extension avoids the store, a matching stored nogood always yields a conflict, and add_ng preserves the excluded set exactly in all three duplicate-elimination modes; the closure loop terminates.",
+                     note=TB + "roaring::RoaringBitmap set-algebra specs ASSUMED (opaque stub); derived Default/Clone of NoGood assumed field-wise; at most u32::MAX statements.", design_ref="DESIGN.md section 5 C18")
 NOT_APPLICABLE = {
     "C04": "completeness of the counting-guided pruning search needs a whole-recursion invariant over search history, outside per-function contracts (DESIGN section 6); the sub-functions it uses are under contract elsewhere",
     "C08": "nom combinator parser over &str: Verus has no str byte reasoning and cannot type the combinator closures; Kani did not finish 4 symbolic bytes (DESIGN section 6)",
